@@ -621,9 +621,10 @@ class Rolling:
                 if rest != "s":
                     raise Unsupported(f"rolling window unit {rest!r}")
                 if isinstance(v, SFloat):
+                    # a float number of seconds (pandas reads "2.5s" exactly, to the ns); NaN cannot be formatted into an offset
                     ex = _ex.current()
-                    ex.side_condition(mk_and(mk_not(v.nan), z3.IsInt(v.v)), "fractional rolling window")
-                    P = SInt(z3.ToInt(v.v))
+                    ex.side_condition(mk_not(v.nan), "NaN rolling window")
+                    P = v
                 else:
                     P = snp.cast_scalar(v, _np.dtype("int64"))
         else:
@@ -674,7 +675,11 @@ class Rolling:
             n = len(self.s)
             return [list(range(max(0, i - self.k + 1), i + 1)) if self.k > 0 else [] for i in range(n)]
         ts = self._tvals()
-        P = z3.ToReal(self.P.v) if ts and z3.is_real(ts[0]) else self.P.v
+        if isinstance(self.P, SFloat):
+            P = self.P.v
+            ts = [t if z3.is_real(t) else z3.ToReal(t) for t in ts]
+        else:
+            P = z3.ToReal(self.P.v) if ts and z3.is_real(ts[0]) else self.P.v
         out = []
         for i in range(len(ts)):
             mem = [i]
